@@ -45,7 +45,8 @@ theorem router_facts_matching_order :
     routerFact "inMatchingOrder.loop" = some "c := 0; c <= max; c++" ∧
     routerFact "inMatchingOrder.sort" = some "sort.Sort(sort.Reverse(sort.StringSlice(ps)))" := by decide +kernel
 
-/-- gorillamux: encoded-path mux router; one fresh Route per (path, server) carrying that server; FindRoute returns a copy;
+/-- gorillamux: encoded-path mux router; one fresh Route per (path, server) carrying that server; FindRoute returns a copy
+    and its only writes through a field go to that copy (Method, Operation: `stepCopy` of RouterHist.lean);
     newSrv drops one trailing slash of any non-empty base path; a path item's servers are assigned to a variable that the
     loop body redeclares on every iteration (`servers := servers`: no leak to the following path items, `gLoop`) -/
 theorem router_facts_gorillamux :
@@ -55,17 +56,20 @@ theorem router_facts_gorillamux :
     routerFact "gorilla.newRouter.route" = some "Spec: doc, Server: s.server, Path: path, PathItem: pathItem, Method: \"\", Operation: nil" ∧
     routerFact "gorilla.newRouter.pathServers" = some "servers := servers | servers, err = makeServers(pathItem.Servers)" ∧
     routerFact "gorilla.findRoute.copy" = some "route := *r.routes[i]" ∧
+    routerFact "gorilla.findRoute.fieldWrites" = some "route.Method = req.Method | route.Operation = route.Spec.Paths.Value(route.Path).GetOperation(route.Method)" ∧
     routerFact "gorilla.findRoute.returns" = some "return &route, vars, nil | return nil, nil, routers.ErrMethodNotAllowed | return nil, nil, routers.ErrPathNotFound" ∧
     routerFact "gorilla.newSrv.trim" = some "len(path) > 0 && path[len(path)-1] == '/'" := by decide +kernel
 
 /-- legacy: NewRouter ranges over two Go maps (hence the arbitrary key order of the legacy theorems), its stored routes have
-    no Server and FindRoute stores the matched one into the copy it returns; only the document's servers are read (F-C09-9); the
+    no Server and FindRoute stores the matched one into the copy it returns (its only writes through a field or index go to
+    that copy and to the fresh parameter map: `stepCopy`); only the document's servers are read (F-C09-9); the
     decoded `url.Path` is matched without servers, the escaped `url.String()` with servers (`legacyFindW`) -/
 theorem router_facts_legacy :
     routerFact "legacy.newRouter.ranges" = some "doc.Paths.Map() | pathItem.Operations()" ∧
     routerFact "legacy.newRouter.routeFields" = some "Spec,Path,PathItem,Method,Operation" ∧
     routerFact "legacy.findRoute.setsRouteServer" = some "r.Server = server" ∧
     routerFact "legacy.findRoute.copyBranch" = some "if server != nil { r := *route r.Server = server route = &r }" ∧
+    routerFact "legacy.findRoute.fieldWrites" = some "pathParams[name] = value | r.Server = server | pathParams[key] = value" ∧
     routerFact "legacy.findRoute.serversFrom" = some "doc.Servers" ∧
     routerFact "legacy.findRoute.remainingPath" = some "remainingPath = url.Path | server, paramValues, remainingPath = servers.MatchURL(url)" ∧
     routerFact "servers.matchURL.input" = some "rawURL := parsedURL.String()" ∧
